@@ -52,6 +52,11 @@ func libTokens(text string) libLex {
 			// content (else "trailing blanks must be reported and removed" and "comments
 			// keep their content" would contradict each other)
 			txt = strings.TrimRight(txt, " \t\r")
+		} else if !strings.HasSuffix(txt, "*/") {
+			// a block comment that is never closed runs to the end of the text (the
+			// tokenizer accepts that); blanks and line ends before the end of the text
+			// are not counted as its content either
+			txt = strings.TrimRight(txt, " \t\r\n")
 		}
 		r.comments = append(r.comments, refComment{block, txt})
 	}
@@ -118,6 +123,11 @@ func damageKind(in []refTok, i int) string {
 	}
 	switch in[i].kind {
 	case "string":
+		// "string-literal" = a literal that spans lines (the known weak spot of the
+		// line-based rewriters); damage to a literal on one line is a different defect
+		if !strings.Contains(in[i].val, "\n") {
+			return "one-line-string-literal"
+		}
 		return "string-literal"
 	case "dqident":
 		return "quoted-identifier"
@@ -153,11 +163,11 @@ func Check() *common.Check {
 	return &common.Check{
 		ID:    "C17",
 		Level: "exploration",
-		Rule: fmt.Sprintf("texts = every sequence of 1..3 (quick) / 1..4 (thorough) lines over a %d-fragment line alphabet "+
+		Rule: fmt.Sprintf("texts = every sequence of 1..3 lines plus every 4-line text that wraps two arbitrary lines into a multi-line string literal or block comment (quick); thorough adds every other sequence of 4 lines; over a %d-fragment line alphabet "+
 			"(clean code, empty line, whitespace-only line, double spaces, trailing spaces, trailing tab, tab-/space-/mixed-indented code, lower-case keywords, "+
-			"opening/middle/closing line of a multi-line string literal holding a keyword, double spaces and trailing blanks, line comment and block comment holding quotes and keywords, "+
+			"a one-line string literal and the opening/middle/closing line of a multi-line string literal, each holding a keyword, double spaces and trailing blanks, line comment and block comment holding quotes and keywords, "+
 			"opening/closing line of a multi-line block comment, double-quoted and back-ticked identifiers spelled like keywords, a 100- and a 101-character line), "+
-			"each with LF and CRLF terminators and with/without a terminator after the last line; every text goes through 8 rewriters (5 rule fixes, in-process `gosqlx lint --auto-fix`, "+
+			"each with LF and CRLF terminators and with/without a terminator after the last line (3-line texts in the quick tier and the additional 4-line texts of the thorough tier: only LF with and CRLF without final terminator); every text goes through 8 rewriters (5 rule fixes, in-process `gosqlx lint --auto-fix`, "+
 			"LSP textDocument/formatting with insertSpaces true/false) and 10 lint rules; distinct = distinct text; non-trivial = the generator's model says at least one layout rule must report a line, "+
 			"or a line starts inside a multi-line literal/comment", len(alphabet)),
 		Assume: []string{
@@ -192,38 +202,47 @@ func enumerate(e *common.Enum) {
 		names[r.rule.ID()] = r.name
 	}
 
+	emit := func(idx []int, forms []form) {
+		n := len(idx)
+		for _, f := range forms {
+			// the same text is produced by a shorter sequence / another form: skip
+			if !f.terminated && ((n > 1 && alphabet[idx[n-1]].text == "") || (n == 1 && f.eol != "\n")) {
+				continue
+			}
+			var kb strings.Builder
+			kb.WriteString(f.name)
+			for i, k := range idx {
+				if i == 0 {
+					kb.WriteByte('|')
+				} else {
+					kb.WriteByte(',')
+				}
+				kb.WriteString(alphabet[k].name)
+			}
+			key := kb.String()
+			if !e.Mine(key) {
+				continue
+			}
+			text := assemble(idx, f)
+			lfText := ""
+			if f.eol != "\n" {
+				lfText = assemble(idx, form{"", "\n", f.terminated})
+			}
+			f := f
+			e.Do(key, func(c *common.Ctx) {
+				runCase(c, key, text, lfText, f, layout, allRules, names, rws)
+			})
+		}
+	}
 	for n := 1; n <= maxLines; n++ {
 		idx := make([]int, n)
+		fs := forms
+		if n == 4 || (n == 3 && !e.Thorough()) {
+			// LF with final terminator and CRLF without (the sandwiches below have all four forms)
+			fs = []form{forms[0], forms[3]}
+		}
 		for {
-			for _, f := range forms {
-				// the same text is produced by a shorter sequence / another form: skip
-				if !f.terminated && ((n > 1 && alphabet[idx[n-1]].text == "") || (n == 1 && f.eol != "\n")) {
-					continue
-				}
-				var kb strings.Builder
-				kb.WriteString(f.name)
-				for i, k := range idx {
-					if i == 0 {
-						kb.WriteByte('|')
-					} else {
-						kb.WriteByte(',')
-					}
-					kb.WriteString(alphabet[k].name)
-				}
-				key := kb.String()
-				if !e.Mine(key) {
-					continue
-				}
-				text := assemble(idx, f)
-				lfText := ""
-				if f.eol != "\n" {
-					lfText = assemble(idx, form{"", "\n", f.terminated})
-				}
-				f := f
-				e.Do(key, func(c *common.Ctx) {
-					runCase(c, key, text, lfText, f, layout, allRules, names, rws)
-				})
-			}
+			emit(idx, fs)
 			// next index vector
 			p := n - 1
 			for p >= 0 {
@@ -239,6 +258,26 @@ func enumerate(e *common.Enum) {
 			}
 		}
 	}
+	{
+		// 4-line texts that wrap two arbitrary lines into a multi-line string literal or
+		// block comment: both tiers, all four forms
+		for _, pair := range [][2]string{{"str-open", "str-close"}, {"cmt-open", "cmt-close"}} {
+			for x := range alphabet {
+				for y := range alphabet {
+					emit([]int{fragIndex(pair[0]), x, y, fragIndex(pair[1])}, forms)
+				}
+			}
+		}
+	}
+}
+
+func fragIndex(name string) int {
+	for i, f := range alphabet {
+		if f.name == name {
+			return i
+		}
+	}
+	panic("no fragment " + name)
 }
 
 func runCase(c *common.Ctx, key, text, lfText string, f form, layout []namedRule, allRules []linter.Rule, names map[string]string, rws []rewriter) {
@@ -369,8 +408,13 @@ func runCase(c *common.Ctx, key, text, lfText string, f form, layout []namedRule
 		}
 		sort.Ints(ls)
 		for _, l := range ls {
-			if !covered[l] && l >= 1 && l <= n {
+			if covered[l] {
+				continue
+			}
+			if l >= 1 && l <= n {
 				c.Fail("false-positive:"+name+":"+lineClass(lx.lines[l-1]), fmt.Sprintf("rule %s reports line %d (%s) which is not a blank line\ntext: %s", id, l, show(lx.lines[l-1].text), show(text)))
+			} else if l == n+1 && terminated {
+				c.Fail("false-positive:"+name+":end-of-text", fmt.Sprintf("rule %s reports the end of the text (line %d) although no blank line precedes it\ntext: %s", id, l, show(text)))
 			}
 		}
 	}
@@ -384,6 +428,10 @@ func runCase(c *common.Ctx, key, text, lfText string, f form, layout []namedRule
 			label = fmt.Sprintf("lsp-format(insertSpaces=%v)", ri == len(rws)-2)
 		}
 		out, err := rw.apply(text)
+		if err == errServerPanic {
+			c.Count("lsp_server_panics_skipped", 1)
+			continue
+		}
 		if err != nil {
 			c.Fail("rewriter-error:"+rw.name, label+" failed: "+err.Error()+"\ntext: "+show(text))
 			continue
@@ -410,7 +458,10 @@ func runCase(c *common.Ctx, key, text, lfText string, f form, layout []namedRule
 					if rc < len(lx.comments) {
 						kind = "line-comment"
 						if lx.comments[rc].block {
-							kind = "block-comment"
+							kind = "block-comment" // spans lines
+							if !strings.Contains(lx.comments[rc].text, "\n") {
+								kind = "one-line-block-comment"
+							}
 						}
 					}
 					c.Fail("fix-changes-comment:"+rw.name+":"+kind, fmt.Sprintf("%s changes comment %d: was %s, is %s\n in: %s\nout: %s", label, lc, descCom(libIn.comments, lc), descCom(libOut.comments, lc), show(text), show(out)))
